@@ -136,7 +136,44 @@ theorem typeable_of_validated (c : Cfg) (raw : RawItem) (hraw : RawOK raw) (inp 
     (h : Input.fromInput c raw = .ok inp) (dw : DeriveWhere) (hdw : dw ∈ inp.deriveWheres)
     (t : DeriveTrait) (ht : t ∈ dw.traits) : Typeable c inp.item dw t.trait := by
   have hok := Input.fromInput_ok c raw inp h
-  refine ⟨?_, ?_, ?_, ?_⟩
+  -- a union item comes from a union (validation keeps the shapes) and only derives Clone / Copy
+  have hkind : isUnion inp.item = true → raw.kind = .union_ := by
+    intro hu
+    apply Classical.byContradiction
+    intro hne
+    have hs := hok.shapes hne hraw.shapes
+    cases hitem : inp.item with
+    | enum_ => simp [hitem, isUnion] at hu
+    | item d =>
+      simp only [hitem, isUnion, beq_iff_eq] at hu
+      exact hs d (by simp [hitem, Item.variants]) hu
+  refine ⟨?_, ?_, ?_, ?_, hok.wf, ?_, ?_⟩
+  rotate_left 4
+  · -- no union shapes in an item that is no union
+    intro hu d hd hsh
+    have hk : raw.kind ≠ .union_ := by
+      intro hk
+      -- a union has exactly one data, of union shape
+      obtain ⟨v, hv⟩ := hraw.single (by rw [hk]; simp)
+      have h' := h
+      unfold Input.fromInput at h'
+      obtain ⟨attr, _, h1⟩ := bind_ok h'
+      obtain ⟨r, hr, h2⟩ := bind_ok h1
+      split at h2
+      · cases h2
+      · simp only [Except.ok.injEq] at h2
+        subst h2
+        unfold Input.buildItem at hr
+        simp only [hk, hv] at hr
+        obtain ⟨d', hd', h3⟩ := bind_ok hr
+        simp only [pure, Except.pure, Except.ok.injEq] at h3
+        rw [← h3] at hu
+        have := (Data.fromStruct_ok _ _ _ _ _ _ hd').1
+        simp [isUnion, this] at hu
+    exact hok.shapes hk hraw.shapes d hd hsh
+  · intro hu
+    have := hok.union dw hdw t ht (hkind hu)
+    cases htt : t.trait <;> simp_all [Trait.supportsUnion]
   · -- `Ord` excludes every `incomparable` marker
     intro hord
     have hno : ¬ (inp.item.markedIncomparable = true ∨ ∃ d ∈ inp.item.variants, d.incomparable = true) := by
